@@ -734,6 +734,21 @@ func runEndScripted(c *core.Ctx, m *core.Model, r *rand.Rand, idx int) {
 	endOracles(c, ec, lines, bad, dumpMsgs)
 	ans := ec.askModel(st, m)
 	ec.compare(c, ans, lines, dump)
+	// however that connection ended, the server serves its NEXT client (no input crashes or wedges the SERVER): an ordinary session on the
+	// same smtp.Server right afterwards — greeting, HELO, NOOP, RSET, QUIT
+	if !st.root.SMTP.ForceTLS {
+		in, nerr := pipeSession(func(cn net.Conn) { st.srv.VerifServe(2, cn) }, []byte("HELO next.example\r\nNOOP\r\nRSET\r\nQUIT\r\n"), 10*time.Second)
+		nl, nbad := parseWire(in)
+		codes := []int{}
+		for _, l := range nl {
+			codes = append(codes, l.code)
+		}
+		c.H("c03end:next-session-on-the-same-server")
+		if nbad != "" || fmt.Sprint(codes) != "[220 250 250 250 221]" {
+			c.Fail("next-session-works", append(append([]string{}, cas...), "then an ordinary session on the same server: HELO next.example, NOOP, RSET, QUIT"),
+				fmt.Sprintf("the next client of the same server was answered %v %s (err %v), it is owed 220 250 250 250 221", codes, nbad, nerr), "")
+		}
+	}
 	c.Count(strings.Join(cas, "\n"), ec.cut > 0)
 	c.H("c03end:scripted:" + ec.kind.String())
 	if ec.stall >= 0 {
